@@ -1,6 +1,7 @@
 import Tmv.Lemmas.BlockSync
 import Tmv.Lemmas.BlockSyncHandover
 import Tmv.Model.BlockSyncV2
+import Tmv.Lemmas.BlockSyncWF
 /-! # C13 — Block sync applies only the canonical chain, whatever peers send
 Property theorems about the model `Tmv.BlockSync` of blockchain/v0 (pool.go, reactor.go
 `poolRoutine`), `VerifyCommitLight`/`VerifyCommit`, `validateBlock` and the hand-over
@@ -184,9 +185,9 @@ theorem redo_signal_can_be_lost :
        .rtimeout 1, .pick 1 2, .disconnect 2, .rstep 1]
     n.pool.req? 1 = some ⟨some 2, none, none⟩ ∧ n.pool.peer? 2 = none := by decide
 
-/-- **reaches_tip_with_one_honest_partial.** Full clause (not proved as one statement): "with one
-honest peer and fair retry the node stores the canonical blocks up to tip-1, from any reachable
-state and under any interleaving with lying peers". Proved here: the progress step — once the two
+/-- The progress step (composed into `reaches_tip_with_one_honest` below). Earlier formulation:
+"with one honest peer and fair retry the node stores the canonical blocks up to tip-1, from any
+reachable state and under any interleaving with lying peers". Proved here: the progress step — once the two
 blocks in front are the honest ones (they pass the check on the node's state) the iteration saves
 the first with the second's commit as seen commit, executes it and moves on by one height — for an
 arbitrary node state. Proved elsewhere in this file: whatever a liar left in a requester is undone
@@ -195,7 +196,7 @@ and nothing but justified blocks is ever stored (`saved_is_canonical`). Missing:
 over a fair schedule (re-pick of the honest peer and delivery, for arbitrary pool contents); the
 scripted fair-retry runs of the correspondence stream check it on the real code with the
 `v0.sync.tip-not-reached` oracle. -/
-theorem reaches_tip_with_one_honest_partial (n : Node) (first second : Block)
+theorem honest_pair_progress (n : Node) (first second : Block)
     (hpk : n.pool.peekTwo = (some first, some second))
     (hok : checkPair sigOK n.st first second = .ok ()) :
     ∃ n', n.processStep sigOK = (n', .saved) ∧ n'.store = (first, second.lastCommit) :: n.store ∧
@@ -211,6 +212,57 @@ theorem reaches_tip_with_one_honest_partial (n : Node) (first second : Block)
   cases hq : n.pool.requesters with
   | nil => exact absurd hq hne
   | cons a l => exact ⟨_, rfl, rfl, rfl, rfl⟩
+
+/-! ### reaching the tip -/
+
+theorem fairRun_is_run (w : Nat) (base tip : Int) (chain : Int → Block) :
+    ∀ (segs : List (List Op)) (n : Node), ∃ ops, fairRun sigOK w base tip chain segs n = n.run sigOK ops := by
+  intro segs
+  induction segs with
+  | nil => intro n; exact ⟨[], rfl⟩
+  | cons A rest ih =>
+    intro n
+    simp only [fairRun]
+    split
+    · obtain ⟨ops, h⟩ := ih ((n.run sigOK A).run sigOK (fairRound (n.run sigOK A).pool.height w base tip
+        (chain (n.run sigOK A).pool.height) (chain ((n.run sigOK A).pool.height + 1))))
+      exact ⟨A ++ (fairRound (n.run sigOK A).pool.height w base tip (chain (n.run sigOK A).pool.height)
+        (chain ((n.run sigOK A).pool.height + 1)) ++ ops), by rw [h, run_append, run_append]⟩
+    · obtain ⟨ops, h⟩ := ih (n.run sigOK A)
+      exact ⟨A ++ ops, by rw [h, run_append]⟩
+
+/-- **reaches_tip_with_one_honest.** Fair-retry hypothesis, stated as the shape of the schedule
+(`fairRun`): the run is ANY sequence of segments of arbitrary operations — whatever lying peers
+send (wrong blocks, forged/padded commits, wrong heights, stale status, silence → timeouts), in
+any order and with any scheduling of the requester transitions, restarts included — and after each
+segment, while the tip is not reached, one fair-retry round for the two heights in front happens
+uninterrupted: the honest peer `w` (re)connects and reports its range, the two requesters exist,
+their retry timers fire (so whatever peer they were assigned to, removed or silent, is given up),
+both are re-assigned to `w`, which has the heights, `w` answers both requests, and the processing
+loop runs. Hypotheses on the world (`HonestChain`): the chain `w` serves passes the node's check
+pair by pair, its blocks decode, and validators never gave +2/3 to two different blocks of one
+height (`noFork`). Then, from a fresh node, after `tip - initial height` such rounds (fewer if the
+liars happen to help) the node is on the canonical chain at height ≥ `tip`: every block below the
+tip is saved and executed. Measure of the induction: remaining height; bad peers need no measure
+because each round gives up the previous assignments wholesale. -/
+theorem reaches_tip_with_one_honest (st0 : St) (h0 : st0.lastHeight = 0) (hih : 0 < st0.initialHeight)
+    (chain : Int → Block) (tip : Int) (w : Nat) (base : Int)
+    (hc : HonestChain sigOK st0 chain st0.initialHeight tip) (hb0 : 0 ≤ base)
+    (hbs : base ≤ st0.initialHeight) (segs : List (List Op))
+    (hlen : tip - st0.initialHeight ≤ segs.length) :
+    ∃ k : Nat, tip ≤ st0.initialHeight + k ∧
+      (fairRun sigOK w base tip chain segs (Node.new st0)).st = canonSt st0 chain st0.initialHeight k ∧
+      (fairRun sigOK w base tip chain segs (Node.new st0)).pool.height = st0.initialHeight + k ∧
+      ∃ ops, fairRun sigOK w base tip chain segs (Node.new st0) = (Node.new st0).run sigOK ops := by
+  have hstart : startHeight st0 = st0.initialHeight := by unfold startHeight; simp [h0]
+  have hwf : WF (Node.new st0) :=
+    ⟨rfl, ⟨hih, by simp [Node.new, h0]⟩, by intro i r b hr; simp [Node.new, Pool.new] at hr,
+      by intro q hq; simp [Node.new, Pool.new] at hq⟩
+  have hcan : Canon st0 chain st0.initialHeight 0 (Node.new st0) :=
+    ⟨rfl, by simp [Node.new, Pool.new, hstart]⟩
+  obtain ⟨k, hk, htip, _⟩ := fairRun_reaches sigOK st0 chain st0.initialHeight tip w base hc hb0 hbs
+    segs (Node.new st0) 0 hwf hcan (by simpa using hlen)
+  exact ⟨k, htip, hk.1, hk.2, fairRun_is_run sigOK w base tip chain segs (Node.new st0)⟩
 
 /-! ### blockchain/v2 processor -/
 
@@ -401,7 +453,7 @@ theorem handover_panics_on_foreign_address :
     ((Node.new witnessSt).run witnessSigOK (witnessOps ⟨.commit, 99, 0, 1⟩)).handover witnessSigOK
       = .panicAddr := by decide
 
-/-- non-vacuity of `reaches_tip_with_one_honest_partial`: a reachable node in which two delivered
+/-- non-vacuity of `honest_pair_progress`: a reachable node in which two delivered
 blocks pass the check -/
 def witnessNode : Node :=
   (Node.new witnessSt).run witnessSigOK ((witnessOps ⟨.commit, 2, 0, 1⟩).dropLast)
@@ -416,6 +468,40 @@ example :
       [.connect 5, .status 5 1 2, .mkreq, .mkreq, .pick 1 5, .pick 2 5, .block 5 witnessB1,
        .block 5 (witnessB2 ⟨.commit, 2, 0, 1⟩ |> fun b => { b with lastCommit := { b.lastCommit with blockId := ⟨7, 7⟩ } })]
     (n.processStep witnessSigOK).2 = .failed (.verify .blockId) (some 5) (some 5) := by decide
+
+/-- v2 saves before it validates: validators 0 (power 7 of 10) signed block 1 although its AppHash
+is wrong; the processor stores it, `applyBlock` fails, the processor panics — the store is one
+block ahead of the state (known finding `v2.saved.block-fails-validation`) -/
+theorem v2_saves_before_validating :
+    let bad : Block := { witnessB1 with flawed := true }
+    let p := (V2.Pc.new witnessSt).run witnessSigOK
+      [.blockReceived 5 (some bad), .blockReceived 5 (some (witnessB2 ⟨.absent, 0, 0, 0⟩)), .processBlock]
+    p.dead = true ∧ p.store = [(bad, (witnessB2 ⟨.absent, 0, 0, 0⟩).lastCommit)] ∧ p.st = witnessSt := by
+  decide
+
+/-- the same two blocks without the flaw are processed (non-vacuity of `v2_saved_is_canonical`) -/
+example :
+    ((V2.Pc.new witnessSt).run witnessSigOK
+      [.blockReceived 5 (some witnessB1), .blockReceived 5 (some (witnessB2 ⟨.absent, 0, 0, 0⟩)),
+       .processBlock]).st.lastHeight = 1 := by decide
+
+def witnessSt10 : St := { witnessSt with initialHeight := 10 }
+def witnessB10 : Block := { witnessB1 with height := 10 }
+def witnessB11 : Block :=
+  { (witnessB2 ⟨.absent, 0, 0, 0⟩) with
+    height := 11, lastCommit := ⟨10, 0, ⟨11, 12⟩, [⟨.commit, 1, 0, 1⟩, ⟨.absent, 0, 0, 0⟩]⟩ }
+
+/-- v2 with genesis `initial_height` 10: the chain's first two blocks (valid, with quorum) are
+queued and `processBlock` does nothing, because `height()` is `LastBlockHeight = 0` (known finding
+`v2.processor.stalls-when-initial-height-above-1`) -/
+theorem v2_stalls_above_initial_height_1 :
+    (validate witnessSigOK witnessSt10 witnessB10 = Except.ok () ∧
+      verifyCommitLight witnessSigOK witnessSt10.vals witnessB10.id witnessB10.height
+        witnessB11.lastCommit = Except.ok ()) ∧
+    ((((V2.Pc.new witnessSt10).handle witnessSigOK (.blockReceived 5 (some witnessB10))).1.handle
+        witnessSigOK (.blockReceived 5 (some witnessB11))).1.handle witnessSigOK .processBlock).2
+      = V2.Out.noOp :=
+  ⟨⟨rfl, rfl⟩, by decide⟩
 
 /-- non-vacuity of `handover_clean_partial`: the same run with an honest tail hands over -/
 example : ((Node.new witnessSt).run witnessSigOK (witnessOps ⟨.commit, 2, 0, 1⟩)).handover witnessSigOK
